@@ -1,3 +1,37 @@
-From Coq Require Import List.
-Theorem C01_placeholder : True. Proof. exact I. Qed.
-Print Assumptions C01_placeholder.
+(* C01 — the compiled circuit computes the denotation, in every semiring
+   Property theorems only: each is closed by `exact <lemma>`; proofs live in the imported files. *)
+From Coq Require Import List ZArith QArith Qcanon Ring_theory Field_theory Permutation Sorted.
+Import ListNotations.
+From CK Require Import Base.
+From CK Require Import Circ.
+From CK Require Import Hom.
+From CK Require Import Gen.
+From CK Require Import Fold.
+From CK Require Import FoldCheck.
+Close Scope Qc_scope. Close Scope Q_scope. Close Scope Z_scope. Open Scope nat_scope.
+
+(* evaluation commutes with every semiring homomorphism h: evaluating the h-image of a circuit gives the h-image of its values (h = exp from the log semiring, h = fst from dual numbers, h = conj); hence one denotation serves all semirings *)
+Theorem C01_hom_eval :
+  forall (R1 R2 : Type) (o1 : R1) (a1 m1 : R1 -> R1 -> R1) (o2 : R2) (a2 m2 : R2 -> R2 -> R2) 
+           (D : Type) (h : R1 -> R2),
+         (forall a b : R1, h (a1 a b) = a2 (h a) (h b)) ->
+         (forall a b : R1, h (m1 a b) = m2 (h a) (h b)) ->
+         h o1 = o2 ->
+         forall (c : circuit R1 D) (y : asg D),
+         eval R2 o2 a2 m2 D (map_circuit R1 R2 D h c) y = map (map h) (eval R1 o1 a1 m1 D c y).
+Proof. exact hom_eval. Qed.
+Print Assumptions C01_hom_eval.
+
+(* address-book evaluation of a checked folded graph equals plain evaluation, slice by slice *)
+Theorem C01_folded_evaluation :
+  forall (V : Type) (dV : V) (g : ugraph V) (F : fgraph),
+         uwf_b (map (uins V) g) = true ->
+         fwf_b F = true ->
+         ab_check (map (uins V) g) F = true ->
+         forall Mi : nat,
+         Mi < length F ->
+         forall s : nat,
+         s < fsize F Mi ->
+         nth s (nth Mi (feval V dV g F) []) dV = nth (nth s (members (nth Mi F dfm)) 0) (ueval V dV g) dV.
+Proof. exact checked_fold_sound. Qed.
+Print Assumptions C01_folded_evaluation.
